@@ -48,7 +48,10 @@ func main() {
 // each mutation is applied by re-parsing the file and mutating the k-th candidate node of a kind
 func mutate(file string, src []byte) []mutant {
 	var out []mutant
-	kinds := []string{"relop", "logic", "negate", "intlit", "arith", "delstmt", "swapargs", "strlit"}
+	kinds := []string{"relop", "logic", "negate", "intlit", "arith", "delstmt", "swapargs", "strlit", "constswap", "funcswap", "boollit"}
+	if only := os.Getenv("MUTKINDS"); only != "" {
+		kinds = strings.Split(only, ",")
+	}
 	for _, kind := range kinds {
 		for k := 0; ; k++ {
 			fset := token.NewFileSet()
@@ -56,6 +59,7 @@ func mutate(file string, src []byte) []mutant {
 			if err != nil {
 				panic(err)
 			}
+			markDecls(f)
 			descs := apply(fset, f, kind, k)
 			if descs == nil {
 				break
@@ -89,6 +93,52 @@ func apply(fset *token.FileSet, f *ast.File, kind string, k int) []string {
 			return res == nil
 		}
 		switch kind {
+		case "constswap":
+			// an enum constant replaced by its neighbour in the declaration order (token types, operators)
+			if id, ok := n.(*ast.Ident); ok && id.Obj == nil || ok && id.Obj != nil && id.Obj.Kind == ast.Con {
+				if alt, isEnum := enumNext[id.Name]; isEnum && !declPos[id.Pos()] {
+					idx++
+					if idx == k {
+						old := id.Name
+						id.Name = alt
+						res = []string{fmt.Sprintf("%s %s → %s", pos(id), old, alt)}
+					}
+				}
+			}
+		case "funcswap":
+			// a call of one of a family of same-signature functions replaced by a sibling
+			if call, ok := n.(*ast.CallExpr); ok {
+				var id *ast.Ident
+				switch fn := call.Fun.(type) {
+				case *ast.Ident:
+					id = fn
+				case *ast.SelectorExpr:
+					id = fn.Sel
+				}
+				if id != nil {
+					if alt, isFam := funcNext[id.Name]; isFam {
+						idx++
+						if idx == k {
+							old := id.Name
+							id.Name = alt
+							res = []string{fmt.Sprintf("%s %s() → %s()", pos(call), old, alt)}
+						}
+					}
+				}
+			}
+		case "boollit":
+			if id, ok := n.(*ast.Ident); ok && (id.Name == "true" || id.Name == "false") {
+				idx++
+				if idx == k {
+					old := id.Name
+					if old == "true" {
+						id.Name = "false"
+					} else {
+						id.Name = "true"
+					}
+					res = []string{fmt.Sprintf("%s %s → %s", pos(id), old, id.Name)}
+				}
+			}
 		case "relop":
 			if b, ok := n.(*ast.BinaryExpr); ok && relAlt[b.Op] != nil {
 				idx++
@@ -227,3 +277,52 @@ func swappable(a, b ast.Expr) bool {
 	}
 	return ok(a) && ok(b)
 }
+
+// enumNext: the enum constants of the library (token types, operators), each mapped to the next one of its block.
+var enumNext = func() map[string]string {
+	m := map[string]string{}
+	for _, fam := range [][]string{
+		{"TErr", "TLiteral", "TQuoted", "TRegexp", "TEqual", "TGreater", "TLess", "TColon", "TPlus", "TMinus", "TTilde", "TCarrot", "TNot", "TAnd", "TOr", "TRParen", "TLParen", "TLCurly", "TRCurly", "TTO", "TLSquare", "TRSquare", "TEOF", "TStart"},
+		{"And", "Or", "Equals", "Like", "Not", "Range", "Must", "MustNot", "Boost", "Fuzzy", "Literal", "Wild", "Regexp", "Greater", "Less", "GreaterEq", "LessEq", "In", "List"},
+	} {
+		for i, n := range fam {
+			m[n] = fam[(i+1)%len(fam)]
+		}
+	}
+	return m
+}()
+
+// declPos: positions of identifiers that are declarations (filled per file by markDecls).
+var declPos = map[token.Pos]bool{}
+
+func markDecls(f *ast.File) {
+	declPos = map[token.Pos]bool{}
+	ast.Inspect(f, func(n ast.Node) bool {
+		switch x := n.(type) {
+		case *ast.ValueSpec:
+			for _, id := range x.Names {
+				declPos[id.Pos()] = true
+			}
+		case *ast.KeyValueExpr:
+			// keys of struct literals are field names, not constants
+			if id, ok := x.Key.(*ast.Ident); ok && id.Obj == nil {
+				_ = id
+			}
+		}
+		return true
+	})
+}
+
+var funcNext = func() map[string]string {
+	m := map[string]string{}
+	for _, fam := range [][]string{
+		{"GREATER", "LESS", "GREATEREQ", "LESSEQ"}, {"AND", "OR"}, {"MUST", "MUSTNOT", "NOT"}, {"Lit", "WILD", "REGEXP"}, {"BOOST", "FUZZY"},
+		{"HasPrefix", "HasSuffix"}, {"TrimLeft", "TrimRight"}, {"Contains", "ContainsAny"}, {"isInt", "isFloat"}, {"toInts", "toFloats"},
+		{"serialize", "serializeParams"}, {"Render", "RenderParam"}, {"next", "peek"}, {"Min", "Max"},
+	} {
+		for i, n := range fam {
+			m[n] = fam[(i+1)%len(fam)]
+		}
+	}
+	return m
+}()
